@@ -76,7 +76,13 @@ def view_paths(rng, n):
         if rng.random() < 0.25:
             ops.append(('measured', dict(x=x, what='construct_total', k=rng.choice(['s', 'm']), units=rng.choice(['kmol/hr', 'kg/hr', 'lb/hr', 'g/min', 'mol/s']), v=rng.choice([10, 3]))))
         elif not multi and rng.random() < 0.5:
-            if rng.random() < 0.5:
+            u3 = rng.random()
+            if u3 < 0.3:
+                # the molar flows are overwritten as a whole with another stream's flow vector (a sparse vector) after views exist
+                z = 'b' if x == 'a' else 'a'          # (a and b share one property package)
+                ops += [('construct', dict(x=z, k='s', price=0, cf=0)), ('set_flow', dict(x=z, p='l', c=1, v=12)), ('set_flow', dict(x=z, p='l', c=2, v=4)),
+                        ('measured', dict(x=z, y=x, what='mol_bulk', view=rng.choice(['mass', 'vol'])))]
+            elif u3 < 0.65:
                 ops += [('construct', dict(x='c', k='s', price=0, cf=0)), ('set_flow', dict(x='c', p='l', c=1, v=12)), ('set_flow', dict(x='c', p='l', c=2, v=4)),
                         ('measured', dict(x='c', y=x, what='view_copy', view=rng.choice(['mass', 'mass', 'vol']), via=rng.choice(['attr', 'indexer'])))]
             else:
